@@ -745,6 +745,103 @@ def cdb_corrupt_sites(db, rep):
     return out
 
 
+def mx_cleanup_sites(db, rep):
+    """dns_mxip() over scripted answers (good MX records, a malformed record at each position, an allocation failure while a name is
+    copied, a complete answer): every pointer given to alloc_free() is the array the function allocated or the text of an entry it
+    filled in on that path - never a cell of the freshly allocated array that was not written - and each is freed once"""
+    from rules.libtab import Conc, SAConc
+    prog = db.program('qmail-remote')
+    fn = db.fn('dns.c', 'dns_mxip')
+    SOFT = -1
+    scripts = [('malformed first record', [SOFT], None), ('one MX then a malformed record', [1, SOFT], None), ('two MX then a malformed record', [1, 1, SOFT], None),
+               ('allocation failure copying the second name', [1, 1], 1), ('allocation failure copying the first name', [1], 0), ('three MX records', [1, 1, 1, 2], None),
+               ('no MX record', [2], None)]
+    bad = None
+    nfree = 0
+    for what, script, failcopy in scripts:
+        freed = []
+        state = {'bad': None}
+
+        class MH(SAConc, Conc):
+            def materialize(self_, E, path):
+                if path.startswith('MXA[') and path.endswith('.sa.s'):
+                    return fs(('uninit', path))
+                if path.startswith('MXA['):
+                    return TOP
+                return Conc.materialize(self_, E, path)
+
+            def materialize_split(self_, E, path):
+                return None
+
+            def prim_ipalloc_readyplus(self_, E, x, args):
+                return [Outcome(ret=fs(1))]
+
+            def prim_ip_scan(self_, E, x, args):
+                return [Outcome(ret=fs(0))]
+
+            prim_ip_scanbracket = prim_ip_scan
+
+            def prim_resolve(self_, E, x, args):
+                return [Outcome(ret=fs(0), sets={'S:dns_c:numanswers': fs(4)})]
+
+            def prim_alloc(self_, E, x, args):
+                return [Outcome(ret=fs(('&', 'MXA[0]')))]
+
+            prim_malloc = prim_alloc
+
+            def prim_findmx(self_, E, x, args):
+                k = _libtab._one(E.get('$k')) or 0
+                r = script[k] if k < len(script) else 2
+                sets = {'$k': fs(k + 1)}
+                if r == 1:
+                    sets['S:dns_c:pref'] = sets['G:pref'] = fs(10 * (k + 1))
+                return [Outcome(ret=fs(r), sets=sets)]
+
+            def prim_stralloc_copys(self_, E, x, args):
+                sa = _libtab._one(args[0])
+                if isinstance(sa, tuple) and sa[1].startswith('MXA['):
+                    c = _libtab._one(E.get('$c')) or 0
+                    if failcopy is not None and c == failcopy:
+                        return [Outcome(ret=fs(0), sets={'$c': fs(c + 1)})]
+                    return [Outcome(ret=fs(1), sets={sa[1] + '.s': fs(('&', 'NAME%d[0]' % c)), sa[1] + '.len': fs(3), sa[1] + '.a': fs(8), '$c': fs(c + 1)})]
+                return SAConc.prim_stralloc_copys(self_, E, x, args)
+
+            def _free(self_, E, x, args):
+                v = _libtab._one(args[0])
+                freed.append(v)
+                mine = tuple(_libtab._one(E.get('$freed')) or ())       # per path: the exploration may fork on the preferences
+                E.set('$freed', fs(mine + (v,)))
+                if state['bad'] is None:
+                    if isinstance(v, tuple) and v[0] == 'uninit':
+                        state['bad'] = ('alloc_free() is handed %s, a cell of the freshly allocated array that nothing was stored into: whatever the heap held there is freed' % v[1].replace('MXA', 'mx'), E.trace.list())
+                    elif v is None:
+                        state['bad'] = ('alloc_free() is handed an undetermined pointer', E.trace.list())
+                    elif v in mine and v != 0:
+                        state['bad'] = ('%s is freed twice' % (v,), E.trace.list())
+                return [Outcome(ret=TOP)]
+
+            prim_alloc_free = prim_free = _free
+
+            def prim_dns_ip(self_, E, x, args):
+                return [Outcome(ret=fs(0))]
+
+            def prim_dns_ipplus(self_, E, x, args):
+                return [Outcome(ret=fs(0))]
+        H = MH('dns_mxip')
+        st = {0: fs(('&', 'IA')), 1: fs(('&', 'HOST')), 2: fs(12345), 'HOST.s': fs(('&', 'HOST.s[0]')), 'HOST.len': fs(1), 'HOST.s[0]': fs(ord('h')), 'IA.len': fs(0)}
+        _libtab._run_conc(db, rep, prog, fn, st, 'dns_mxip', H)
+        nfree += len(freed)
+        if state['bad'] is not None and bad is None:
+            bad = ('answer with %s: %s' % (what, state['bad'][0]), state['bad'][1])
+        elif len(H.ends) == 0 and bad is None:
+            raise AnalysisBroken('dns_mxip (%s): no end reached' % what)
+        if bad is None and script and any(r in (1, SOFT) for r in script) and ('&', 'MXA[0]') not in freed:
+            bad = ('answer with %s: the record array is never freed' % what, [])
+    if not nfree and bad is None:
+        raise AnalysisBroken('dns_mxip: no alloc_free explored')
+    return {'dns_mxip:frees-only-what-it-allocated-and-filled-in': (bad is None, 'dns.c:dns_mxip', bad[0] if bad else '%d scripted answers, %d frees' % (len(scripts), nfree), bad[1] if bad else [])}
+
+
 def run(ctx):
     db, rep = ctx.db, ctx.report
     # ---------------------------------------------------------------- 1. reserve contracts (linear symbolic)
@@ -917,7 +1014,9 @@ def run(ctx):
     r8 = rep.rule('C20.8-dns-records', 'R-BOUND', 'dns.c findip/findmx/findname over every combination of a record length field in {0,2,3,4,16} and {0,1,2,3,4,16} bytes of response left behind the record header: no byte at or behind the end of the response is read, and dn_expand() is bounded by the end of the response')
     for inst, v in sorted(dns_walker_sites(db, rep).items()):
         r8.check(v[0], inst, v[1], v[2], v[3])
-    r8.expect_min(3)
+    for inst, v in sorted(mx_cleanup_sites(db, rep).items()):
+        r8.check(v[0], inst, v[1], v[2], v[3])
+    r8.expect_min(4)
 
     r9 = rep.rule('C20.9-delivery-reports', 'R-BOUND', 'qmail-rspawn and qmail-lspawn report(): over every exit status class and every output of 0..5 (0..4) bytes, only the len bytes of the delivery program\'s output are read, whether or not it ends in NUL')
     for inst, v in sorted(report_read_sites(db, rep).items()):
